@@ -55,7 +55,8 @@ def nontrivial(prop, tr):
     if prop == "C03":
         return "discover" in calls
     if prop == "C04":
-        return "Malformed" in ks or any(ev["e"] == "rx" and ev["f"].get("next") in ("next0", "next4") for ev in tr)
+        return ("Malformed" in ks or any(ev["e"] == "rx" and ev["f"].get("next") in ("next0", "next4") for ev in tr)
+                or any(ev["e"] == "rx" and ev["f"].get("c") in ("garbage", "badSecretLen", "otherKey") for ev in tr))
     if prop == "C06":
         return len(ks) >= 2
     if prop == "C10":
@@ -171,6 +172,29 @@ def run(prop, tier):
         o = observed[0]
         samples.append({"abstract": sel[o["i"]], "concretisation": o.get("conc"), "observed_result": o["hist"][-1]["result"]})
     extra_notes = []
+    if prop in ("C01", "C03", "C06"):
+        # the same clauses on TIMED executions (slow authentication, slow routing stages, keep-alives in between): ConnTimed schedules
+        tcfg = "MC_ConnTimedQuick.cfg" if tier == "quick" else "MC_ConnTimedFull.cfg"
+        tm = vlib.run_tlc("MC_ConnTimed", tcfg, wd, workers=4, timeout=1800)
+        if not tm.ok:
+            raise vlib.ToolError("TLC reports %s on %s (specification error):\n%s" % (tm.violated, tcfg, tm.output[-2000:]))
+        scheds = sorted({json.dumps(b["sched"], sort_keys=True) for b in tm.marked["REPLAY"]})
+        tinp, toutp = os.path.join(wd, "timed_in.ndjson"), os.path.join(wd, "timed_obs.ndjson")
+        vlib.write_ndjson(tinp, [{"sched": json.loads(x)} for x in scheds])
+        vlib.run_bin(hx, ["conn-timed", "--in", tinp, "--out", toutp, "--seed", str(seed), "--threads", "12"], timeout=1800)
+        tobs = vlib.read_ndjson(toutp)
+        tt = vlib.run_tlc("Trace_ConnProps", "Trace_ConnProps.cfg", wd, workers=1, timeout=1800, markers=("FAIL", "NOTCONSUMED"),
+                          env_extra={"TRACE": toutp, "PROP": prop}, java_opts=["-Xss1g", "-Dtlc2.tool.queue.IStateQueue=StateDeque"])
+        if not tt.ok or tt.marked["NOTCONSUMED"] or tt.distinct != len(tobs) + 1:
+            raise vlib.ToolError("trace validation of the timed runs did not consume all %d records:\n%s" % (len(tobs), tt.output[-2000:]))
+        for f in tt.marked["FAIL"]:
+            o = tobs[f["line"] - 1]
+            sc = o["sched"]
+            rep.violation("%s %s [timed: policy=%s auth=%s ack=%s info=%s lat=%s]" % (prop, "+".join(sorted(f["clauses"])), sc.get("policy"), sc.get("auth"), sc.get("ackAt"), sc.get("infoAt"), sc.get("lat")),
+                          {"failing_clauses": sorted(f["clauses"]), "schedule": sc, "observed": {k: o[k] for k in o if k != "hist"}, "seed": seed})
+        states += tm.distinct + tt.distinct
+        transitions += tm.generated + tt.generated
+        extra_notes.append("%s: %d timed schedules run under virtual time and judged by Trace_ConnProps" % (tcfg, len(tobs)))
     if prop == "C03":
         # the built-in localization adapter (C03: "falling back from region to language to the default locale"): Builtins.tla
         b = vlib.run_tlc("MC_Builtins", "MC_Builtins.cfg", wd, workers=1, timeout=600)
